@@ -116,6 +116,66 @@ def mline_meets(v, o1, a, b, bx):
     return MLINE_MEETS(v.A, v.off, o1.A, o1.off + a, o1.off + b, *[rl(t).val for t in bx])
 
 
+def bounds_enclose_steps(reg, A, T, lo, hi):
+    """every coordinate of the cells [lo, hi) lies between the spec minimum and maximum of its axis"""
+    out = []
+    for ax, nm in ((0, 'x'), (1, 'y')):
+        for lname in ('MINV_lower_bound', 'MAXV_upper_bound'):
+            out.append((f'{lname}-{nm}', instance_forall(
+                reg, lname, 'int', lambda k, ax=ax: dict(A=A, T=T, lo=lo + ax, hi=hi + ax, k=k),
+                patterns=lambda k: [z3.Select(A, k.z())])))
+    return out
+
+
+def reject_steps(reg, A, T, lo, hi, bx):
+    """the bounding box of the cells [lo, hi) is disjoint from the box: no vertex in it, no segment meets it"""
+    x0, y0, x1, y1 = bx
+
+    def cell(k):
+        return SFloat(FIN, z3.Select(A, k.z()))
+    out = [('beyond-one-side-misses', instance_forall(
+        reg, 'beyond_one_side_misses', 'int',
+        lambda k: dict(ax0=cell(k), ay0=cell(k + 1), ax1=cell(k + 2), ay1=cell(k + 3), x0=x0, y0=y0, x1=x1, y1=y1),
+        patterns=lambda k: [z3.Select(A, (k + 3).z())]))]
+    return out + bounds_enclose_steps(reg, A, T, lo, hi)
+
+
+def accept_steps(reg, A, T, lo, hi, bx, tag=''):
+    """early accept for the vertex run [lo, hi): the coordinates of one axis (`inn`) all lie in the box's slab, those
+    of the other (`cr`) reach from below the slab's upper end to above its lower end; discrete intermediate value
+    argument.  Concludes  slab => (a vertex in the box or a segment meeting it)."""
+    x0, y0, x1, y1 = bx
+    out = reject_steps(reg, A, T, lo, hi, bx)
+
+    def cell(k):
+        return SFloat(FIN, z3.Select(A, k.z()))
+    mn = [MINV(A, T, lo, hi), MINV(A, T, lo + 1, hi + 1)]
+    mx = [MAXV(A, T, lo, hi), MAXV(A, T, lo + 1, hi + 1)]
+    wmn = [WITMIN(A, T, lo, hi), WITMIN(A, T, lo + 1, hi + 1)]
+    wmx = [WITMAX(A, T, lo, hi), WITMAX(A, T, lo + 1, hi + 1)]
+    for ax, nm in ((0, 'x'), (1, 'y')):
+        for lname in ('MINV_attained', 'MAXV_attained'):
+            out.append((f'{lname}-{nm}', instance(reg, lname, A=A, T=T, lo=lo + ax, hi=hi + ax)))
+    vert = exists('int', lambda t: And(t >= lo, t + 1 < hi, (t - lo) % 2 == 0, in_box(cell(t), cell(t + 1), bx)))
+    seg = exists('int', lambda t: And(t >= lo, t + 3 < hi, (t - lo) % 2 == 0,
+                                      seg_qf((cell(t), cell(t + 1), cell(t + 2), cell(t + 3)), bx)))
+    for nm, cr, lvl_lo, lvl_hi, in_lo, in_hi in (('x-slab', 1, y0, y1, x0, x1), ('y-slab', 0, x0, x1, y0, y1)):
+        inn = 1 - cr
+        slab = And(mn[inn] >= in_lo, mx[inn] <= in_hi, mn[cr] <= lvl_hi, mx[cr] >= lvl_lo)
+        p, q = wmn[cr], wmx[cr]
+        out.append((f'{nm}-up', instance(reg, 'first_upcrossing', A=A, p=p, q=q, lvl=lvl_lo)))
+        out.append((f'{nm}-down', instance(reg, 'first_downcrossing', A=A, p=q, q=p, lvl=lvl_lo)))
+        # (1) an adjacent pair across the slab's lower end, the other axis inside: that segment meets the box
+        out.append((f'{nm}-crossing-segment-meets', instance_forall(
+            reg, 'x_slab_crossing_meets' if cr == 1 else 'y_slab_crossing_meets', 'int',
+            lambda k, cr=cr: dict(ax0=cell(k - cr), ay0=cell(k - cr + 1), ax1=cell(k - cr + 2), ay1=cell(k - cr + 3),
+                                  x0=x0, y0=y0, x1=x1, y1=y1),
+            patterns=lambda k: [z3.Select(A, (k + 2).z())])))
+        # (2) hence: a vertex in the box or a segment meeting it
+        out.append((f'{tag}{nm}-accept-is-right', Implies(slab, Or(vert, seg)), ['req:', 'lemma:']))
+    return out
+
+
 def register(reg):
     F = Flt(finite=True)
     U32 = Arr('int', 'uint32')
@@ -252,61 +312,12 @@ def register(reg):
         return v.A, v.T, v.off + s, v.off + e
 
     def pl_reject(c):
-        """the bounding box is disjoint from the box: every coordinate lies between the spec minimum and maximum"""
         A, T, lo, hi = _spec_terms(c.a)
-        x0, y0, x1, y1 = pl_box(c.a)
-
-        def cell(k):
-            return SFloat(FIN, z3.Select(A, k.z()))
-        out = [('beyond-one-side-misses', instance_forall(
-            reg, 'beyond_one_side_misses', 'int',
-            lambda k: dict(ax0=cell(k), ay0=cell(k + 1), ax1=cell(k + 2), ay1=cell(k + 3), x0=x0, y0=y0, x1=x1, y1=y1),
-            patterns=lambda k: [z3.Select(A, (k + 3).z())]))]
-        for ax, nm in ((0, 'x'), (1, 'y')):
-            for lname in ('MINV_lower_bound', 'MAXV_upper_bound'):
-                out.append((f'{lname}-{nm}', instance_forall(
-                    reg, lname, 'int', lambda k, ax=ax: dict(A=A, T=T, lo=lo + ax, hi=hi + ax, k=k),
-                    patterns=lambda k: [z3.Select(A, k.z())])))
-        return out
+        return reject_steps(reg, A, T, lo, hi, pl_box(c.a))
 
     def pl_accept(c):
-        """early accept: the coordinates of one axis (`inn`) all lie in the box's slab, those of the other (`cr`)
-        reach from below the slab's upper end to above its lower end; discrete intermediate value argument"""
-        a = c.a
-        A, T, lo, hi = _spec_terms(a)
-        bx = pl_box(a)
-        x0, y0, x1, y1 = bx
-        out = pl_reject(c)
-
-        def cell(k):
-            return SFloat(FIN, z3.Select(A, k.z()))
-        mn = [MINV(A, T, lo, hi), MINV(A, T, lo + 1, hi + 1)]
-        mx = [MAXV(A, T, lo, hi), MAXV(A, T, lo + 1, hi + 1)]
-        wmn = [WITMIN(A, T, lo, hi), WITMIN(A, T, lo + 1, hi + 1)]
-        wmx = [WITMAX(A, T, lo, hi), WITMAX(A, T, lo + 1, hi + 1)]
-        for ax, nm in ((0, 'x'), (1, 'y')):
-            for lname in ('MINV_attained', 'MAXV_attained'):
-                out.append((f'{lname}-{nm}', instance(reg, lname, A=A, T=T, lo=lo + ax, hi=hi + ax)))
-        vert = exists('int', lambda t: And(t >= lo, t + 1 < hi, (t - lo) % 2 == 0, in_box(cell(t), cell(t + 1), bx)))
-        seg = exists('int', lambda t: And(t >= lo, t + 3 < hi, (t - lo) % 2 == 0,
-                                          seg_qf((cell(t), cell(t + 1), cell(t + 2), cell(t + 3)), bx)))
-        for nm, cr, lvl_lo, lvl_hi, in_lo, in_hi in (('x-slab', 1, y0, y1, x0, x1), ('y-slab', 0, x0, x1, y0, y1)):
-            inn = 1 - cr
-            slab = And(mn[inn] >= in_lo, mx[inn] <= in_hi, mn[cr] <= lvl_hi, mx[cr] >= lvl_lo)
-            p, q = wmn[cr], wmx[cr]
-            out.append((f'{nm}-up', instance(reg, 'first_upcrossing', A=A, p=p, q=q, lvl=lvl_lo)))
-            out.append((f'{nm}-down', instance(reg, 'first_downcrossing', A=A, p=q, q=p, lvl=lvl_lo)))
-
-            # (1) an adjacent pair across the slab's lower end, the other axis inside: that segment meets the box
-            out.append((f'{nm}-crossing-segment-meets', instance_forall(
-                reg, 'x_slab_crossing_meets' if cr == 1 else 'y_slab_crossing_meets', 'int',
-                lambda k, cr=cr: dict(ax0=cell(k - cr), ay0=cell(k - cr + 1), ax1=cell(k - cr + 2), ay1=cell(k - cr + 3),
-                                      x0=x0, y0=y0, x1=x1, y1=y1),
-                patterns=lambda k: [z3.Select(A, (k + 2).z())])))
-            # (2) hence: a vertex in the box or a segment meeting it
-            out.append((f'{nm}-accept-is-right', Implies(slab, Or(vert, seg)),
-                        ['req:', 'lemma:']))
-        return out
+        A, T, lo, hi = _spec_terms(c.a)
+        return accept_steps(reg, A, T, lo, hi, pl_box(c.a))
 
     reg.add(Contract(INT + '::_perform_line_intersect_bounds', pl_params(), returns=None,
                      requires=pl_requires, ensures=pl_ensures, modifies=('result',),
